@@ -314,6 +314,69 @@ pub fn run_interleaved(spec: &Spec, mode: &str) -> Vec<Result<u64, String>> {
             }
             return finish(logs, errs);
         }
+        "fork" => {
+            // The schedule on ONE thread (thread numbers are ignored), and in the middle of it the process
+            // forks: the child carries every live instance on, the parent only waits for it. A copy of the
+            // process is a copy of every generator; each copy must go on exactly as the original would.
+            let fork_at = spec.aux.first().copied().unwrap_or(0) as usize % spec.sched.len().max(1);
+            let mut next_op: Vec<usize> = vec![0; n];
+            let mut one = |i: usize, gens: &mut Vec<Option<Box<dyn DynGen>>>, logs: &mut Vec<Digest>, errs: &mut Vec<Option<String>>, next_op: &mut Vec<usize>| {
+                if errs[i].is_some() || next_op[i] >= spec.insts[i].ops.len() {
+                    return;
+                }
+                if !built[i] {
+                    built[i] = true;
+                    match build_inst(&spec.insts[i]) {
+                        Ok(g) => gens[i] = Some(g),
+                        Err(e) => {
+                            errs[i] = Some(e);
+                            return;
+                        }
+                    }
+                }
+                let op = spec.insts[i].ops[next_op[i]].clone();
+                next_op[i] += 1;
+                if let Some(g) = gens[i].as_mut() {
+                    if let Err(e) = do_op(g, &op, &mut logs[i]) {
+                        errs[i] = Some(e);
+                    }
+                }
+            };
+            for (k, (i, t)) in spec.sched.iter().enumerate() {
+                if k == fork_at {
+                    use std::io::Write;
+                    let _ = std::io::stdout().flush();
+                    let pid = unsafe { libc::fork() };
+                    if pid > 0 {
+                        // parent: the child prints the results
+                        let mut status: libc::c_int = 0;
+                        unsafe {
+                            libc::waitpid(pid, &mut status, 0);
+                            libc::_exit(if libc::WIFEXITED(status) { libc::WEXITSTATUS(status) } else { 99 });
+                        }
+                    }
+                    // child (or fork refused: pid < 0): go on
+                }
+                if *i >= 200 {
+                    disturbance(*i - 200, k as u64 * 7919 + *t as u64);
+                    continue;
+                }
+                one(*i as usize, &mut gens, &mut logs, &mut errs, &mut next_op);
+            }
+            loop {
+                let mut any = false;
+                for i in 0..n {
+                    if errs[i].is_none() && next_op[i] < spec.insts[i].ops.len() {
+                        one(i, &mut gens, &mut logs, &mut errs, &mut next_op);
+                        any = true;
+                    }
+                }
+                if !any {
+                    break;
+                }
+            }
+            return finish(logs, errs);
+        }
         _ => {}
     }
     // worker threads
@@ -711,6 +774,9 @@ impl Scenario for C19 {
             }
             sched.push((i, cur_t));
         }
+        if rng.chance(1, 6) && !sched.is_empty() {
+            spec.aux = vec![rng.below(sched.len() as u64)];
+        }
         spec.sched = sched;
         spec.insts = insts;
         spec
@@ -765,7 +831,12 @@ impl Scenario for C19 {
             }
         }
         let json = serde_json::to_string(spec).unwrap();
-        let inter = match spawn(&["c19run", "sched"], &json) {
+        // one schedule in six runs on one thread and FORKS the process in the middle (aux[0] = where)
+        let mode = if spec.aux.is_empty() { "sched" } else { "fork" };
+        if mode == "fork" {
+            st.count("fault:process_forked");
+        }
+        let inter = match spawn(&["c19run", mode], &json) {
             Ok(v) => v,
             Err(e) => return RunEnd::Discard(format!("HARNESS_PANIC: c19run: {}", e)),
         };
